@@ -41,7 +41,7 @@ def budget(tier):
 
 def generate(tp: Tape, tier: str):
     profile = tp.weighted([("hostile", 6), ("general", 3), ("reduce", 2), ("multi", 1)])
-    case = c01.generate(tp, tier, profile=profile)
+    case = c01.generate(tp, tier, profile=profile, allow_zero_default=True)
     return case
 
 
